@@ -62,7 +62,7 @@ def tlc_edges(ctx, module, cfg_text, label, timeout=900):
     cfg = os.path.join(d, label + '.cfg')
     with open(cfg, 'w') as f:
         f.write(cfg_text)
-    r = vlib.tlc(ctx, module, cfg, workers=1, timeout=timeout, label=label, kind='edges')
+    r = vlib.tlc(ctx, module, cfg, workers=1, timeout=timeout, label=label, kind='mc')
     if not r.clean:
         raise MachineryError('edge dump run failed (%s):\n%s' % (label, r.tail(40)))
     edges = scheck.parse_edges(r.out)
@@ -75,9 +75,9 @@ def key(o):
     return json.dumps(o, sort_keys=True, separators=(',', ':'))
 
 
-def edge_paths(edges, is_init):
-    """Unique edges and, for each, a shortest action path from an initial state to its source.
-    Returns list of (init_state, [actions on the path], edge)."""
+def edge_paths(edges, is_init, avoid=None):
+    """Unique edges and, for each, a shortest action path from an initial state to its source (paths do not use
+    edges for which avoid(edge) holds).  Returns list of (init_state, [actions on the path], edge)."""
     succ = collections.defaultdict(list)
     states = {}
     uniq = {}
@@ -87,7 +87,8 @@ def edge_paths(edges, is_init):
         states[kt] = e['t']
         if (ks, ka) not in uniq:
             uniq[(ks, ka)] = e
-            succ[ks].append((kt, e['a']))
+            if not (avoid and avoid(e)):
+                succ[ks].append((kt, e['a']))
     pred = {}
     q = collections.deque()
     for ks, s in states.items():
@@ -114,26 +115,42 @@ def edge_paths(edges, is_init):
     return out, len(states)
 
 
-def validate(ctx, module, cfg, lines, label, chunk=1500, count=True):
-    """TraceLib validation; returns sorted list of rejected history indices."""
-    before = ctx.cov.get('impl_traces', 0)
-    rej = scheck.validate_histories(ctx, module, cfg, lines, label, chunk=chunk)
-    if not count:
-        ctx.cov['impl_traces'] = before
-    bad = [r for r in rej if not isinstance(r, int)]
-    if bad:
-        raise MachineryError('trace spec %s stopped on %s' % (label, bad[0]))
-    return sorted(set(rej))
+def validate(ctx, module, cfg, lines, label, chunk=3000, count=True, timeout=1500):
+    """TraceLib/TracePos validation (variant of scheck.validate_histories that also reads the furthest position).
+    Returns (sorted rejected history indices, {index: 1-based number of the first refused event})."""
+    import concurrent.futures
+    chunks = [lines[i:i + chunk] for i in range(0, len(lines), chunk)]
 
+    def one(ci):
+        d = vlib.mkdirs(os.path.join(ctx.work, 'traces'))
+        path = os.path.join(d, '%s-%d.ndjson' % (label, ci))
+        with open(path, 'w') as f:
+            for ln in chunks[ci]:
+                f.write(json.dumps(ln, separators=(',', ':')) + '\n')
+        res = vlib.tlc(ctx, module, cfg, workers=1, env={'TRACE': path}, timeout=timeout, label='%s-%d' % (label, ci), kind='trace')
+        if res.clean:
+            return ci, [], {}
+        m = re.search(r'<<\s*"REJECTED",\s*\{(.*?)\}\s*>>', res.out, re.S)
+        if not m:
+            raise MachineryError('trace validation failed to run (%s):\n%s' % (label, res.tail(40)))
+        idx = [int(x) for x in m.group(1).split(',') if x.strip()]
+        pos = {}
+        m2 = re.search(r'<<\s*"REACHED",\s*\{(.*?)\}\s*>>', res.out, re.S)
+        if m2:
+            for a, b in re.findall(r'<<(\d+),\s*(\d+)>>', m2.group(1)):
+                pos[int(a)] = int(b)
+        return ci, idx, pos
 
-def first_bad_event(ctx, module, cfg, line, label):
-    """Number (1-based) of the first event of a rejected history that the spec refuses: all proper prefixes are
-    validated as histories of their own."""
-    evs = line['ev']
-    hdr = {k: v for k, v in line.items() if k != 'ev'}
-    pref = [dict(hdr, ev=evs[:n]) for n in range(1, len(evs) + 1)]
-    rej = validate(ctx, module, cfg, pref, label, chunk=100000, count=False)
-    return (rej[0] + 1) if rej else None
+    rejected, reached = [], {}
+    with concurrent.futures.ThreadPoolExecutor(max_workers=min(4, max(1, len(chunks)))) as ex:
+        for ci, idx, pos in ex.map(one, range(len(chunks))):
+            for i in idx:
+                rejected.append(ci * chunk + i - 1)
+                if i in pos:
+                    reached[ci * chunk + i - 1] = pos[i]
+    if count:
+        ctx.add('impl_traces', len(lines))
+    return sorted(set(rejected)), reached
 
 
 def strip_diag(line):
